@@ -13,7 +13,7 @@ Oracle (independent, from the property statement): Richardson-extrapolated centr
 `eval_func`, compared entry by entry (so row/column placement is part of the comparison) with the analytic Jacobians.
 """
 from __future__ import annotations
-import ast, copy, glob, json, math, os, fractions
+import ast, contextlib, copy, glob, io, json, math, os, fractions
 
 import numpy as np
 
@@ -461,7 +461,19 @@ def impl_tree(case):
         c = Context(factory_for(mode), [e], eid_to_wrts={0: tuple(wrt)}, qid_to_logly={i: bool(l) for i, l in enumerate(case["logly"])},
                     context=(dict(USER_BINDINGS[case.get("binding", "A")]) if uses_user(case["tree"]) else None))
         with np.errstate(all="ignore"):
-            d, v = c.eval_to_arrays(data, case["off"])
+            if case.get("history"):
+                # one Context, evaluated first at another point; the SAME data array is then overwritten in place and evaluated again
+                work = data * 1.07 + 0.01
+                try:
+                    c.eval_to_arrays(work, case["off"])
+                except TypeError:
+                    raise
+                except Exception:
+                    pass
+                work[:] = data
+                d, v = c.eval_to_arrays(work, case["off"])
+            else:
+                d, v = c.eval_to_arrays(data, case["off"])
     except TypeError as ex:
         return ("err:type", str(ex)[:120])
     except Exception as ex:
@@ -795,7 +807,7 @@ def run_trees(ctx: Ctx, bad_rules: set, oracle_only=False, scale=1):
         if not has_token(t):
             continue
         gen.append({"tree": t, "nq": nq, "logly": logly, "mode": r.weighted([("sys", 3), ("flat", 1), ("nf", 1)]), "off": 2,
-                    "data": data.tolist()})
+                    "data": data.tolist(), **({"history": True} if len(gen) % 4 == 3 else {})})
     # --- trees with user context functions (finite_differentiators.py): oracle only, the Lean model has no rule for them
     usr = []
     rng = ctx.rng.fork("user-trees")
@@ -812,7 +824,7 @@ def run_trees(ctx: Ctx, bad_rules: set, oracle_only=False, scale=1):
         if not has_token(t) or not uses_user(t):
             continue
         usr.append({"tree": t, "nq": nq, "logly": logly, "mode": r.weighted([("sys", 2), ("flat", 1), ("nf", 1)]), "off": 2,
-                    "data": data.tolist()})
+                    "data": data.tolist(), **({"history": True} if len(usr) % 3 == 2 else {})})
     for c in usr:
         ctx.count("tree-user-function-cases")
         ctx.nontriv(("tree-user", tuple(sorted(kinds_in(c["tree"]))), c["mode"], tuple(c["logly"])))
@@ -983,10 +995,45 @@ def build_model(case):
         kw["context"] = {n: USER_BINDINGS[case.get("binding", "A")][n] for n in case["context"]}
     if case.get("flat"):
         kw["flat"] = True
+    if case.get("linear"):
+        kw["linear"] = True
     m = ir.Simultaneous.from_string(case["source"], **kw)
+    if case.get("variants"):
+        # several parameter variants in one model object: case["variants"] = one assignment per variant
+        vs = case["variants"]
+        m.alter_num_variants(len(vs))
+        m.assign(**{k: [(tuple(v[k]) if isinstance(v[k], list) else v[k]) for v in vs] for k in vs[0]})
+        return m
     asg = {k: (tuple(v) if isinstance(v, list) else v) for k, v in case["assign"].items()}
     m.assign(**asg)
     return m
+
+
+def own_data_array(m, assign, linear):
+    """the evaluation point of systemize() for one variant, built by the harness from the values it assigned (not by irispie):
+    nonlinear: level + shift*change (level*change**shift for log-variables); linear: variables at 0 (1 for log-variables); shocks 0"""
+    inv = m._invariant
+    ql = m.create_qid_to_logly()
+    n2q = m.create_name_to_qid()
+    ms, Ms = inv._min_shift, inv._max_shift
+    arr = np.zeros((len(inv.quantities), -ms + 1 + Ms))
+    from irispie.quantities import QuantityKind as QK
+    kinds = {q.id: q.kind for q in inv.quantities}
+    for name, val in assign.items():
+        q = n2q[name]
+        isvar = kinds[q] in (QK.TRANSITION_VARIABLE | QK.MEASUREMENT_VARIABLE)
+        level, change = (val if isinstance(val, (list, tuple)) else (val, None))
+        for c in range(arr.shape[1]):
+            sft = c + ms
+            if not isvar:
+                arr[q, c] = level
+            elif linear:
+                arr[q, c] = 1.0 if ql.get(q) else 0.0
+            elif ql.get(q):
+                arr[q, c] = level * (change if change is not None else 1.0) ** sft
+            else:
+                arr[q, c] = level + sft * (change if change is not None else 0.0)
+    return arr
 
 
 def compare_matrix(ctx, site, case, name, analytic, fd_fun, shape_note=""):
@@ -1006,11 +1053,13 @@ def compare_matrix(ctx, site, case, name, analytic, fd_fun, shape_note=""):
     return not bad
 
 
-def oracle_systemize(ctx: Ctx, case, m=None, own_reference=False, prefix=""):
+def oracle_systemize(ctx: Ctx, case, m=None, own_reference=False, prefix="", vid=0, arr_override=None):
     from irispie.quantities import QuantityKind as QK
     m = m or build_model(case)
     try:
         s = m.systemize()
+        if isinstance(s, (list, tuple)):
+            s = s[vid]
     except TypeError as ex:
         ctx.count("oracle:systemize-rejected")      # an equation with no Atom rule: rejected, allowed by the property
         return m
@@ -1023,7 +1072,7 @@ def oracle_systemize(ctx: Ctx, case, m=None, own_reference=False, prefix=""):
     v = m._variants[0]
     ql = m.create_qid_to_logly()
     ms, Ms = inv._min_shift, inv._max_shift
-    arr = v.create_steady_array(ql, num_columns=-ms + 1 + Ms, shift_in_first_column=ms)
+    arr = v.create_steady_array(ql, num_columns=-ms + 1 + Ms, shift_in_first_column=ms) if arr_override is None else arr_override
     off = -ms
     pe = inv._plain_dynamic_equator
     eqs = {e.id: e for e in inv.dynamic_equations}
@@ -1168,6 +1217,56 @@ def oracle_steady(ctx: Ctx, case, m=None):
             compare_matrix(ctx, "steady-nonflat:t0", case, "non-flat steady Jacobian, time-0 rows", J[:n, :], lambda i, j: (col(j)[0][i], col(j)[1][i]))
             compare_matrix(ctx, "steady-nonflat:tk", case, "non-flat steady Jacobian, time-k rows", J[n:, :], lambda i, j: (col(j)[0][n + i], col(j)[1][n + i]))
         ctx.count(f"oracle:steady-{flavour}-models")
+        # --- a history of calls on this ONE evaluator object: the same ndarray updated in place between calls (as an iterative solver
+        # may do), the order eval_func / eval_jacob / eval varied, then an equal copy; every call is judged at the point actually passed,
+        # against differences taken on a second, fresh evaluator that only ever sees newly allocated arrays
+        if flavour == "flat":
+            ref = se.FlatSteadyEvaluator(wrt, [], eqs, qs, copy.deepcopy(m._variants[0]), context=m.get_context(), iter_printer_settings={})
+        else:
+            ref = se.NonflatSteadyEvaluator(wrt, wrt, eqs, qs, copy.deepcopy(m._variants[0]), context=m.get_context(), iter_printer_settings={})
+
+        def fd_at(point):
+            D, E = np.zeros(J.shape), np.zeros(J.shape)
+            for j in range(len(point)):
+                def g(u):
+                    x = np.array(point, dtype=float); x[j] += u
+                    with np.errstate(all="ignore"):
+                        return np.array(ref.eval_func(x), dtype=float)
+                h = 1e-3
+                d1 = (g(h) - g(-h)) / (2 * h)
+                d2 = (g(h / 2) - g(-h / 2)) / h
+                D[:, j], E[:, j] = (4 * d2 - d1) / 3, np.abs(d2 - d1)
+            return D, E
+        wob = 0.03 * np.sin(1.0 + np.arange(len(g0)))
+        x = g0.copy()
+        steps = []
+        try:
+            with np.errstate(all="ignore"):
+                ev.eval_jacob(x)
+                x += wob                                   # in place
+                steps.append(("jacob after x += step", x.copy(), np.array(ev.eval_jacob(x), dtype=float)))
+                x[:] = g0 - 0.5 * wob                      # in place, another point
+                ev.eval_func(x)
+                steps.append(("func then jacob after x[:] = point", x.copy(), np.array(ev.eval_jacob(x), dtype=float)))
+                x *= 1.01                                  # in place
+                with contextlib.redirect_stdout(io.StringIO()):          # eval() also feeds the iteration printer
+                    Je = ev.eval(x)[1]
+                steps.append(("eval (func and jacobian) after x *= 1.01", x.copy(), np.array(Je, dtype=float)))
+                y = x.copy()
+                steps.append(("jacob of an equal copy", y.copy(), np.array(ev.eval_jacob(y), dtype=float)))
+                y -= wob
+                steps.append(("jacob after the copy was changed in place", y.copy(), np.array(ev.eval_jacob(y), dtype=float)))
+        except Exception as ex:
+            ctx.count(f"oracle:steady-{flavour}-history-raised:{type(ex).__name__}")
+        for label, point, Jk in steps:
+            D, E = fd_at(point)
+            ctx.count("oracle:steady-history-calls")
+            if Jk.shape != D.shape:
+                ctx.fail(f"steady-{flavour}:history", case, f"{label}: shape {Jk.shape} vs {D.shape}")
+                break
+            if not compare_matrix(ctx, f"steady-{flavour}:history", case, f"{flavour} steady Jacobian, call history on one evaluator ({label})",
+                                  Jk, lambda i, j: (D[i, j], E[i, j])):
+                break
 
 
 def oracle_stacked(ctx: Ctx, case, m=None, T=3):
@@ -1231,6 +1330,38 @@ def oracle_stacked(ctx: Ctx, case, m=None, T=3):
             cache[j] = ((4 * d2 - d1) / 3, np.abs(d2 - d1))
         return cache[j]
     compare_matrix(ctx, "stacked", case, f"stacked-time Jacobian (T={T})", J, lambda i, j: (col(j)[0][i], col(j)[1][i]))
+    # --- call history on this one evaluator: the guess array updated in place, the same data array reused (as the solver does)
+    try:
+        ref = ste.create_evaluator(spots, cols, eqs, qs, None, m.get_context())
+        wobg = 0.03 * np.sin(2.0 + np.arange(len(g0)))
+        x, data = g0.copy(), arr.copy()
+        steps = []
+        with np.errstate(all="ignore"):
+            ev.eval_jacob(x, data)
+            x += wobg
+            Jk = ev.eval_jacob(x, data)
+            steps.append(("jacob after x += step, same data array", x.copy(), np.array(Jk.toarray() if hasattr(Jk, "toarray") else Jk, dtype=float)))
+            x[:] = g0 - 0.5 * wobg
+            ev.eval_func(x, data)
+            Jk = ev.eval_func_jacob(x, data)[1]
+            steps.append(("func then func_jacob after x[:] = point", x.copy(), np.array(Jk.toarray() if hasattr(Jk, "toarray") else Jk, dtype=float)))
+        for label, point, Jk in steps:
+            D, E = np.zeros(J.shape), np.zeros(J.shape)
+            for j in range(len(point)):
+                def g(u):
+                    xx = point.copy(); xx[j] += u
+                    with np.errstate(all="ignore"):
+                        return np.array(ref.eval_func(xx, arr.copy()), dtype=float)
+                h = 1e-3
+                d1 = (g(h) - g(-h)) / (2 * h)
+                d2 = (g(h / 2) - g(-h / 2)) / h
+                D[:, j], E[:, j] = (4 * d2 - d1) / 3, np.abs(d2 - d1)
+            ctx.count("oracle:stacked-history-calls")
+            if not compare_matrix(ctx, "stacked:history", case, f"stacked-time Jacobian, call history on one evaluator ({label})", Jk,
+                                  lambda i, j: (D[i, j], E[i, j])):
+                break
+    except Exception as ex:
+        ctx.count("oracle:stacked-history-raised:" + type(ex).__name__)
     ctx.count("oracle:stacked-models")
 
 
@@ -1535,6 +1666,93 @@ def terminator_lines(m, T):
     return lines, impl
 
 
+def gen_linear_model(rng):
+    """linear=True model: every equation is linear in the variables, the coefficients are (nonlinear) functions of the parameters"""
+    nx = rng.randint(2, 3)
+    nmeas = rng.randint(0, 2)
+    xs = [f"x{i}" for i in range(nx)]
+    ys = [f"m{i}" for i in range(nmeas)]
+    ps = ["p0", "p1"]
+    names = xs + ys + ps + [f"e{i}" for i in range(nx)] + [f"w{i}" for i in range(nmeas)]
+    qid = {n: i for i, n in enumerate(names)}
+    par = {p: round(0.2 + 0.6 * rng.random(), 3) for p in ps}
+    env = {(qid[p], s): par[p] for p in ps for s in range(-3, 4)}
+
+    def coef(r):
+        return gen_smooth(r, r.randint(1, 2), [(qid[p], 0) for p in ps], env)
+
+    def lin(r, toks, shock):
+        t = None
+        for k in range(r.randint(1, 3)):
+            z, sft = r.choice(toks)
+            term = ("mul", ("mul", ("c", 0.3), coef(r.fork(k))), ("t", qid[z], sft))
+            t = term if t is None else ("add", t, term)
+        return ("add", t, ("mul", ("c", round(0.5 + r.random(), 2)), ("t", qid[shock], 0)))
+    src = ["!transition-variables " + ", ".join(xs), "!parameters " + ", ".join(ps), "!transition-shocks " + ", ".join(f"e{i}" for i in range(nx)),
+           "!transition-equations"]
+    for i, x in enumerate(xs):
+        toks = [(z, sft) for z in xs for sft in (-2, -1, -1, 0, 1) if not (z == x and sft == 0)]
+        src.append(f"  {x} = {render(lin(rng.fork(i), toks, f'e{i}'), names, '{', '}')};")
+    if ys:
+        src += ["!measurement-variables " + ", ".join(ys), "!measurement-shocks " + ", ".join(f"w{i}" for i in range(nmeas)), "!measurement-equations"]
+        for i, y in enumerate(ys):
+            toks = [(z, sft) for z in xs for sft in (0, -1, -2, -3)]
+            src.append(f"  {y} = {render(lin(rng.fork(100 + i), toks, f'w{i}'), names, '{', '}')};")
+    return {"source": "\n".join(src), "assign": dict(par), "linear": True}
+
+
+def run_variant_models(ctx: Ctx, bad_rules: set, scale=1):
+    """one model object with several parameter variants (different parameter values and steady states), linear and nonlinear;
+    every variant's systemize() against differences at the point the harness builds from THAT variant's values; then the values
+    of the same object are re-assigned and it is systemized again (multi-step history on one object)"""
+    n = ctx.n(16, 160) * scale
+    rng = ctx.rng.fork("variant-models")
+    for i in range(n):
+        r = rng.fork(i)
+        linear = (i % 2 == 0)
+        case = gen_linear_model(r) if linear else gen_model(r, bad_rules)
+        nv = r.randint(2, 3)
+        base = case["assign"]
+
+        def scaled(val, f):
+            if isinstance(val, list):
+                return [round(val[0] * f, 4), val[1]]
+            return round(val * f, 4)
+        variants = [{k: scaled(v, 1 + (0.25 if linear else 0.05) * kk * (1 if j % 2 else -1) * 0.5 * (1 + j % 3)) for j, (k, v) in enumerate(sorted(base.items()))}
+                    for kk in range(nv)]
+        case = dict(case, kind="variant-model", variants=variants)
+        ctx.evaluations += 1
+        ctx.nontriv(("variant-model", case["source"]))
+        ctx.count("variant-models:linear" if linear else "variant-models:nonlinear")
+        ctx.count(f"variant-models:n-variants={nv}")
+        if i < 2:
+            ctx.sample({"stream": "variant-model", "source": case["source"], "linear": linear, "variants": variants})
+        check_variant_model(ctx, case)
+
+
+def check_variant_model(ctx: Ctx, case):
+    try:
+        m = build_model(case)
+    except Exception as ex:
+        ctx.count("variant-models:build-raised:" + type(ex).__name__)
+        return
+    linear = bool(case.get("linear"))
+    for vid, asg in enumerate(case["variants"]):
+        before = len(ctx.failures)
+        oracle_systemize(ctx, case, m, prefix="variant:", vid=vid, arr_override=own_data_array(m, asg, linear))
+        ctx.count("oracle:variant-systemize-evaluations")
+        if len(ctx.failures) > before:
+            return
+    # re-assign on the same object, systemize again: the last variant's values now in every variant
+    last = case["variants"][-1]
+    try:
+        m.assign(**{k: (tuple(v) if isinstance(v, list) else v) for k, v in last.items()})
+    except Exception as ex:
+        ctx.count("variant-models:reassign-raised:" + type(ex).__name__)
+        return
+    oracle_systemize(ctx, case, m, prefix="variant:reassigned:", vid=0, arr_override=own_data_array(m, last, linear))
+
+
 def run_forward_models(ctx: Ctx, scale=1, oracle_only=False):
     n = ctx.n(16, 200) * scale
     rng = ctx.rng.fork("forward-models")
@@ -1640,6 +1858,9 @@ def replay_case(ctx: Ctx, case, bad_rules=None):
     elif case.get("kind") == "model-rebinding":
         seq = case.get("sequence") or ["A", "B", "A"]
         check_rebinding_model(ctx, dict(case, sequence=(["A"] + seq if seq[0] != "A" else seq)))
+    elif case.get("kind") == "variant-model":
+        check_variant_model(ctx, case)
+        ctx.evaluations += 1
     elif case.get("kind") == "forward-model":
         oracle_simulate_stacked(ctx, case)
         ctx.evaluations += 1
@@ -1675,6 +1896,7 @@ def run(ctx: Ctx):
     run_trees(ctx, bad_rules)
     run_models(ctx, bad_rules)
     run_forward_models(ctx)
+    run_variant_models(ctx, bad_rules)
     ctx.extra["rules_failing_the_oracle"] = sorted(bad_rules)
 
 
@@ -1689,6 +1911,7 @@ def search(ctx: Ctx, seeds):
     run_trees(ctx, bad_rules, oracle_only=True, scale=3)
     run_models(ctx, bad_rules, oracle_only=True, scale=2)
     run_forward_models(ctx, scale=2, oracle_only=True)
+    run_variant_models(ctx, bad_rules, scale=2)
 
 
 def replay(ctx: Ctx, payload):
